@@ -1,4 +1,5 @@
 import Pcore.Proofs.ValueEqTy
+import Pcore.Proofs.ValueEqVer
 import Mathlib.Data.List.Perm.Subperm
 /-! Helper lemmas for C07: the hypotheses of the property theorems (`Comparable`), an induction principle for `Val`,
     and `veq` is an equivalence relation on comparable values. -/
@@ -27,6 +28,11 @@ def cmp : Val → Bool
   | .typ t => TyWF t
   | .timespan n => minInt ≤ n && n ≤ maxInt
   | .timestamp a b => (minInt ≤ a && a ≤ maxInt) && (minInt ≤ b && b ≤ maxInt)
+  | .semver _ => false        -- (stage 1: not yet inside the key theorems)
+  | .vrange _ _ => false      -- (stage 1)
+  | .tname _ _ _ => false     -- no hash key at all: `EqComparable` only
+  | .deferred _ _ => false
+  | .param _ _ _ _ _ => false
   | _ => true
 def cmpL : List Val → Bool
   | [] => true
@@ -39,6 +45,52 @@ end
 def Comparable (x : Val) : Prop := cmp x = true
 
 instance (x : Val) : Decidable (Comparable x) := inferInstanceAs (Decidable (cmp x = true))
+
+mutual
+/-- `EqComparable`: the values the EQUIVALENCE clauses of the property speak about.  It is `Comparable` without the demand
+    that the value has a hash key: a TypedName, a Deferred, a Parameter (`px.ToKey` reports `INVALID_MAP_KEY` for them, by
+    design) and every SemVer / SemVerRange are inside; the keys of a Hash must still be keyable (else the Hash cannot be
+    built) -/
+def ecmp : Val → Bool
+  | .int i => minInt ≤ i && i ≤ maxInt
+  | .float b => b < 18446744073709551616 && !fIsNaN b
+  | .sensitive _ => false
+  | .array vs => ecmpL vs
+  | .hash es => ecmpE es && distinctB (es.map fun e => kb e.1)
+  | .entry k v => ecmp k && ecmp v
+  | .typ t => TyWF t
+  | .timespan n => minInt ≤ n && n ≤ maxInt
+  | .timestamp a b => (minInt ≤ a && a ≤ maxInt) && (minInt ≤ b && b ≤ maxInt)
+  | .deferred _ as => ecmpL as
+  | .param _ t _ v _ => TyWF t && ecmp v
+  | _ => true
+def ecmpL : List Val → Bool
+  | [] => true
+  | v :: vs => ecmp v && ecmpL vs
+def ecmpE : List (Val × Val) → Bool
+  | [] => true
+  | (k, v) :: es => (keyable k && ecmp k) && ecmp v && ecmpE es
+end
+
+def EqComparable (x : Val) : Prop := ecmp x = true
+
+instance (x : Val) : Decidable (EqComparable x) := inferInstanceAs (Decidable (ecmp x = true))
+
+theorem ecmpL_mem : ∀ {vs : List Val}, ecmpL vs = true → ∀ v ∈ vs, ecmp v = true
+  | [], _, _, h => by simp at h
+  | w :: ws, h, v, hv => by
+      simp only [ecmpL, Bool.and_eq_true] at h
+      rcases List.mem_cons.mp hv with e | hv
+      · rw [e]; exact h.1
+      · exact ecmpL_mem h.2 v hv
+
+theorem ecmpE_mem : ∀ {es : List (Val × Val)}, ecmpE es = true → ∀ e ∈ es, ecmp e.1 = true ∧ ecmp e.2 = true
+  | [], _, _, h => by simp at h
+  | (k, v) :: es, h, e, he => by
+      simp only [ecmpE, Bool.and_eq_true] at h
+      rcases List.mem_cons.mp he with e' | he
+      · rw [e']; exact ⟨h.1.1.2, h.1.2⟩
+      · exact ecmpE_mem h.2 e he
 
 theorem cmpL_mem : ∀ {vs : List Val}, cmpL vs = true → ∀ v ∈ vs, cmp v = true
   | [], _, _, h => by simp at h
@@ -74,7 +126,11 @@ variable {P : Val → Prop}
   (hentry : ∀ k v, P k → P v → P (.entry k v))
   (hsens : ∀ v, P v → P (.sensitive v)) (htyp : ∀ t, P (.typ t))
   (htspan : ∀ n, P (.timespan n)) (htstamp : ∀ a b, P (.timestamp a b))
+  (huri : ∀ s, P (.uri s)) (hsemver : ∀ v, P (.semver v)) (hvrange : ∀ o rs, P (.vrange o rs))
+  (htname : ∀ a n m, P (.tname a n m)) (hdeferred : ∀ n as, (∀ v ∈ as, P v) → P (.deferred n as))
+  (hparam : ∀ n t h v c, P v → P (.param n t h v c))
 include hundef hdflt hbool hint hfloat hstr hregexp hbinary harray hhash hentry hsens htyp htspan htstamp
+  huri hsemver hvrange htname hdeferred hparam
 
 mutual
 theorem Val.ind : ∀ x : Val, P x
@@ -87,6 +143,12 @@ theorem Val.ind : ∀ x : Val, P x
   | .typ t => htyp t
   | .timespan n => htspan n
   | .timestamp a b => htstamp a b
+  | .uri s => huri s
+  | .semver v => hsemver v
+  | .vrange o rs => hvrange o rs
+  | .tname a n m => htname a n m
+  | .deferred n as => hdeferred n as (Val.indL as)
+  | .param n t h v c => hparam n t h v c (Val.ind v)
 theorem Val.indL : ∀ vs : List Val, ∀ v ∈ vs, P v
   | [], _, h => by simp at h
   | w :: ws, v, hv => by
@@ -134,6 +196,9 @@ theorem veq_elems_none_left {x y : Val} {ws : List Val} (hx : elems x = none) (h
 
 theorem cmp_elems {x : Val} {vs : List Val} (hx : elems x = some vs) : cmp x = cmpL vs := by
   cases x <;> simp [elems] at hx <;> subst hx <;> simp [cmp, cmpL]
+
+theorem ecmp_elems {x : Val} {vs : List Val} (hx : elems x = some vs) : ecmp x = ecmpL vs := by
+  cases x <;> simp [elems] at hx <;> subst hx <;> simp [ecmp, ecmpL]
 
 /-! ## the hash index -/
 
@@ -218,56 +283,70 @@ theorem cmp_hash {es : List (Val × Val)} (h : cmp (.hash es) = true) : cmpE es 
   simp only [cmp, Bool.and_eq_true] at h
   exact ⟨h.1, distinctB_nodup h.2⟩
 
+theorem ecmp_hash {es : List (Val × Val)} (h : ecmp (.hash es) = true) : ecmpE es = true ∧ (keysOf es).Nodup := by
+  simp only [ecmp, Bool.and_eq_true] at h
+  exact ⟨h.1, distinctB_nodup h.2⟩
+
 /-! ## reflexivity -/
 
-theorem veqL_refl_of : ∀ {vs : List Val}, (∀ v ∈ vs, cmp v = true → veq v v = true) → cmpL vs = true → veqL vs vs = true
+theorem veqL_refl_of : ∀ {vs : List Val}, (∀ v ∈ vs, ecmp v = true → veq v v = true) → ecmpL vs = true → veqL vs vs = true
   | [], _, _ => by simp [veqL]
   | v :: vs, ih, h => by
-      simp only [cmpL, Bool.and_eq_true] at h
+      simp only [ecmpL, Bool.and_eq_true] at h
       simp only [veqL, Bool.and_eq_true]
       exact ⟨ih v List.mem_cons_self h.1, veqL_refl_of (fun w hw => ih w (List.mem_cons_of_mem _ hw)) h.2⟩
 
-theorem veq_refl : ∀ x : Val, cmp x = true → veq x x = true := by
+theorem veq_refl_e : ∀ x : Val, ecmp x = true → veq x x = true := by
   apply Val.ind
   · intro _; simp [veq]
   · intro _; simp [veq]
   · intro b _; simp [veq]
   · intro i _; simp [veq]
   · intro b h
-    simp only [cmp, Bool.and_eq_true, Bool.not_eq_true'] at h
+    simp only [ecmp, Bool.and_eq_true, Bool.not_eq_true'] at h
     simp [veq, feq_refl h.2]
   · intro s _; simp [veq]
   · intro s _; simp [veq]
   · intro s _; simp [veq]
   · intro vs ih h
-    simp only [cmp] at h
+    simp only [ecmp] at h
     simp [veq, veqL_refl_of ih h]
   · intro es ih h
-    obtain ⟨hc, hd⟩ := cmp_hash h
+    obtain ⟨hc, hd⟩ := ecmp_hash h
     simp only [veq, beq_self_eq_true, Bool.true_and]
     rw [veqE_iff hd]
     intro e he
-    exact ⟨e, lookupLast_mem hd he, (ih e he).1 (cmpE_mem hc e he).1, (ih e he).2 (cmpE_mem hc e he).2⟩
+    exact ⟨e, lookupLast_mem hd he, (ih e he).1 (ecmpE_mem hc e he).1, (ih e he).2 (ecmpE_mem hc e he).2⟩
   · intro k v ihk ihv h
-    simp only [cmp, Bool.and_eq_true] at h
+    simp only [ecmp, Bool.and_eq_true] at h
     simp [veq, ihk h.1, ihv h.2]
-  · intro v _ h; simp [cmp] at h
+  · intro v _ h; simp [ecmp] at h
   · intro t h
-    simp only [cmp] at h
+    simp only [ecmp] at h
     simp [veq, tyEq_refl t h]
   · intro n _; simp [veq]
   · intro a b _; simp [veq]
+  · intro s _; simp [veq]
+  · intro v _; simp [veq, verEq_iff]
+  · intro o rs _; simp [veq, rangesEq_iff]
+  · intro a n m _; simp [veq]
+  · intro n as ih h
+    simp only [ecmp] at h
+    simp [veq, veqL_refl_of ih h]
+  · intro n t hv v c ih h
+    simp only [ecmp, Bool.and_eq_true] at h
+    simp [veq, tyEq_refl t h.1, ih h.2]
 
 /-! ## symmetry -/
 
 theorem veqL_symm_of : ∀ {vs ws : List Val},
-    (∀ v ∈ vs, ∀ y, cmp v = true → cmp y = true → veq v y = veq y v) → cmpL vs = true → cmpL ws = true →
+    (∀ v ∈ vs, ∀ y, ecmp v = true → ecmp y = true → veq v y = veq y v) → ecmpL vs = true → ecmpL ws = true →
     vs.length = ws.length → veqL vs ws = veqL ws vs
   | [], [], _, _, _, _ => rfl
   | [], _ :: _, _, _, _, h => by simp at h
   | _ :: _, [], _, _, _, h => by simp at h
   | v :: vs, w :: ws, ih, hv, hw, hl => by
-      simp only [cmpL, Bool.and_eq_true] at hv hw
+      simp only [ecmpL, Bool.and_eq_true] at hv hw
       simp only [veqL]
       rw [ih v List.mem_cons_self w hv.1 hw.1,
         veqL_symm_of (fun u hu => ih u (List.mem_cons_of_mem _ hu)) hv.2 hw.2 (by simpa using hl)]
@@ -299,10 +378,10 @@ theorem veqE_swap {es fs : List (Val × Val)} (hes : (keysOf es).Nodup) (hfs : (
   refine ⟨e, ?_, sw e he e'' he' h2 h3⟩
   rw [← hk]; exact lookupLast_mem hes he
 
-theorem veq_symm : ∀ x y : Val, cmp x = true → cmp y = true → veq x y = veq y x := by
+theorem veq_symm_e : ∀ x y : Val, ecmp x = true → ecmp y = true → veq x y = veq y x := by
   have seq : ∀ (x : Val) (vs : List Val), elems x = some vs →
-      (∀ v ∈ vs, ∀ y, cmp v = true → cmp y = true → veq v y = veq y v) →
-      ∀ y, cmp x = true → cmp y = true → veq x y = veq y x := by
+      (∀ v ∈ vs, ∀ y, ecmp v = true → ecmp y = true → veq v y = veq y v) →
+      ∀ y, ecmp x = true → ecmp y = true → veq x y = veq y x := by
     intro x vs hx ih y cx cy
     cases hy : elems y with
     | none => rw [veq_elems_none_right hx hy, veq_elems_none_left hy hx]
@@ -310,8 +389,8 @@ theorem veq_symm : ∀ x y : Val, cmp x = true → cmp y = true → veq x y = ve
       rw [veq_elems hx hy, veq_elems hy hx, beq_swap vs.length ws.length]
       cases hl : (ws.length == vs.length)
       · simp
-      · rw [cmp_elems hx] at cx
-        rw [cmp_elems hy] at cy
+      · rw [ecmp_elems hx] at cx
+        rw [ecmp_elems hy] at cy
         simp only [Bool.true_and]
         have hl' : ws.length = vs.length := by simpa using hl
         exact veqL_symm_of ih cx cy hl'.symm
@@ -328,8 +407,8 @@ theorem veq_symm : ∀ x y : Val, cmp x = true → cmp y = true → veq x y = ve
   · intro es ih y cx cy
     cases y <;> try simp [veq]
     rename_i fs
-    obtain ⟨hc, hd⟩ := cmp_hash cx
-    obtain ⟨hc', hd'⟩ := cmp_hash cy
+    obtain ⟨hc, hd⟩ := ecmp_hash cx
+    obtain ⟨hc', hd'⟩ := ecmp_hash cy
     rw [beq_swap es.length fs.length]
     cases hl : (fs.length == es.length)
     · simp
@@ -338,14 +417,14 @@ theorem veq_symm : ∀ x y : Val, cmp x = true → cmp y = true → veq x y = ve
       have sw1 : ∀ e ∈ es, ∀ e' ∈ fs, veq e.1 e'.1 = true → veq e.2 e'.2 = true →
           veq e'.1 e.1 = true ∧ veq e'.2 e.2 = true := by
         intro e he e' he' h1 h2
-        rw [← (ih e he).1 e'.1 (cmpE_mem hc e he).1 (cmpE_mem hc' e' he').1,
-          ← (ih e he).2 e'.2 (cmpE_mem hc e he).2 (cmpE_mem hc' e' he').2]
+        rw [← (ih e he).1 e'.1 (ecmpE_mem hc e he).1 (ecmpE_mem hc' e' he').1,
+          ← (ih e he).2 e'.2 (ecmpE_mem hc e he).2 (ecmpE_mem hc' e' he').2]
         exact ⟨h1, h2⟩
       have sw2 : ∀ e' ∈ fs, ∀ e ∈ es, veq e'.1 e.1 = true → veq e'.2 e.2 = true →
           veq e.1 e'.1 = true ∧ veq e.2 e'.2 = true := by
         intro e' he' e he h1 h2
-        rw [(ih e he).1 e'.1 (cmpE_mem hc e he).1 (cmpE_mem hc' e' he').1,
-          (ih e he).2 e'.2 (cmpE_mem hc e he).2 (cmpE_mem hc' e' he').2]
+        rw [(ih e he).1 e'.1 (ecmpE_mem hc e he).1 (ecmpE_mem hc' e' he').1,
+          (ih e he).2 e'.2 (ecmpE_mem hc e he).2 (ecmpE_mem hc' e' he').2]
         exact ⟨h1, h2⟩
       cases h1 : veqE es fs
       · cases h2 : veqE fs es
@@ -359,17 +438,35 @@ theorem veq_symm : ∀ x y : Val, cmp x = true → cmp y = true → veq x y = ve
     rcases hw with e | e
     · rw [e]; exact ihk
     · rw [e]; exact ihv
-  · intro v _ y h; simp [cmp] at h
+  · intro v _ y h; simp [ecmp] at h
   · intro t y _ _; cases y <;> simp [veq]
     exact tyEq_symm _ _
   · intro n y _ _; cases y <;> simp [veq, beq_swap (tsSecs n)]
   · intro a b y _ _; cases y <;> simp [veq, beq_swap a, beq_swap b]
+  · intro s y _ _; cases y <;> simp [veq, beq_swap s]
+  · intro v y _ _; cases y <;> simp [veq, verEq_comm v]
+  · intro o rs y _ _; cases y <;> simp [veq, rangesEq_comm rs]
+  · intro a n m y _ _; cases y <;> simp [veq, beq_swap (mapKey a n m)]
+  · intro n as ih y cx cy
+    cases y <;> try simp [veq]
+    rename_i n' as'
+    simp only [ecmp] at cx cy
+    rw [beq_swap n n', beq_swap as.length as'.length]
+    cases hl : (as'.length == as.length)
+    · simp
+    · have hl' : as'.length = as.length := by simpa using hl
+      rw [veqL_symm_of ih cx cy hl'.symm]
+  · intro n t hv v c ih y cx cy
+    cases y <;> try simp [veq]
+    rename_i n' t' hv' v' c'
+    simp only [ecmp, Bool.and_eq_true] at cx cy
+    rw [ih v' cx.2 cy.2, tyEq_symm t t', beq_swap n n', beq_swap hv hv', beq_swap c c']
 
 /-! ## transitivity -/
 
 theorem veqL_trans_of : ∀ {vs ws us : List Val},
-    (∀ v ∈ vs, ∀ y z, cmp v = true → cmp y = true → veq v y = true → veq y z = true → veq v z = true) →
-    cmpL vs = true → cmpL ws = true → veqL vs ws = true → veqL ws us = true → veqL vs us = true
+    (∀ v ∈ vs, ∀ y z, ecmp v = true → ecmp y = true → veq v y = true → veq y z = true → veq v z = true) →
+    ecmpL vs = true → ecmpL ws = true → veqL vs ws = true → veqL ws us = true → veqL vs us = true
   | [], _, _, _, _, _, _, _ => by simp [veqL]
   | v :: vs, ws, us, ih, cv, cw, h1, h2 => by
       cases ws with
@@ -378,14 +475,14 @@ theorem veqL_trans_of : ∀ {vs ws us : List Val},
         cases us with
         | nil => simp [veqL] at h2
         | cons u us =>
-          simp only [veqL, Bool.and_eq_true, cmpL] at h1 h2 cv cw ⊢
+          simp only [veqL, Bool.and_eq_true, ecmpL] at h1 h2 cv cw ⊢
           exact ⟨ih v List.mem_cons_self w u cv.1 cw.1 h1.1 h2.1,
             veqL_trans_of (fun x hx => ih x (List.mem_cons_of_mem _ hx)) cv.2 cw.2 h1.2 h2.2⟩
 
-theorem veq_trans : ∀ x y z : Val, cmp x = true → cmp y = true → veq x y = true → veq y z = true → veq x z = true := by
+theorem veq_trans_e : ∀ x y z : Val, ecmp x = true → ecmp y = true → veq x y = true → veq y z = true → veq x z = true := by
   have seq : ∀ (x : Val) (vs : List Val), elems x = some vs →
-      (∀ v ∈ vs, ∀ y z, cmp v = true → cmp y = true → veq v y = true → veq y z = true → veq v z = true) →
-      ∀ y z, cmp x = true → cmp y = true → veq x y = true → veq y z = true → veq x z = true := by
+      (∀ v ∈ vs, ∀ y z, ecmp v = true → ecmp y = true → veq v y = true → veq y z = true → veq v z = true) →
+      ∀ y z, ecmp x = true → ecmp y = true → veq x y = true → veq y z = true → veq x z = true := by
     intro x vs hx ih y z cx cy h1 h2
     cases hy : elems y with
     | none => rw [veq_elems_none_right hx hy] at h1; cases h1
@@ -397,8 +494,8 @@ theorem veq_trans : ∀ x y z : Val, cmp x = true → cmp y = true → veq x y =
         rw [veq_elems hy hz] at h2
         rw [veq_elems hx hz]
         simp only [Bool.and_eq_true, beq_iff_eq] at h1 h2 ⊢
-        rw [cmp_elems hx] at cx
-        rw [cmp_elems hy] at cy
+        rw [ecmp_elems hx] at cx
+        rw [ecmp_elems hy] at cy
         exact ⟨h1.1.trans h2.1, veqL_trans_of ih cx cy h1.2 h2.2⟩
   apply Val.ind
   · intro y z _ _; cases y <;> simp [veq]
@@ -417,8 +514,8 @@ theorem veq_trans : ∀ x y z : Val, cmp x = true → cmp y = true → veq x y =
     rename_i fs
     cases z <;> try simp [veq]
     rename_i gs
-    obtain ⟨hc, hd⟩ := cmp_hash cx
-    obtain ⟨hc', hd'⟩ := cmp_hash cy
+    obtain ⟨hc, hd⟩ := ecmp_hash cx
+    obtain ⟨hc', hd'⟩ := ecmp_hash cy
     intro l1 h1 l2 h2
     refine ⟨l1.trans l2, ?_⟩
     rw [veqE_iff hd] at h1 ⊢
@@ -429,8 +526,8 @@ theorem veq_trans : ∀ x y z : Val, cmp x = true → cmp y = true → veq x y =
     obtain ⟨e'', g1, g2, g3⟩ := h2 e' he'
     refine ⟨e'', ?_, ?_, ?_⟩
     · rw [← (lookupLast_some f1).2]; exact g1
-    · exact (ih e he).1 e'.1 e''.1 (cmpE_mem hc e he).1 (cmpE_mem hc' e' he').1 f2 g2
-    · exact (ih e he).2 e'.2 e''.2 (cmpE_mem hc e he).2 (cmpE_mem hc' e' he').2 f3 g3
+    · exact (ih e he).1 e'.1 e''.1 (ecmpE_mem hc e he).1 (ecmpE_mem hc' e' he').1 f2 g2
+    · exact (ih e he).2 e'.2 e''.2 (ecmpE_mem hc e he).2 (ecmpE_mem hc' e' he').2 f3 g3
   · intro k v ihk ihv
     refine seq (.entry k v) [k, v] rfl ?_
     intro w hw
@@ -438,7 +535,7 @@ theorem veq_trans : ∀ x y z : Val, cmp x = true → cmp y = true → veq x y =
     rcases hw with e | e
     · rw [e]; exact ihk
     · rw [e]; exact ihv
-  · intro v _ y z h; simp [cmp] at h
+  · intro v _ y z h; simp [ecmp] at h
   · intro t y z _ _; cases y <;> simp [veq]
     intro h1; cases z <;> simp [veq]
     exact tyEq_trans _ _ _ h1
@@ -448,5 +545,120 @@ theorem veq_trans : ∀ x y z : Val, cmp x = true → cmp y = true → veq x y =
   · intro a b y z _ _; cases y <;> simp [veq]
     intro h1 h2; cases z <;> simp [veq]
     exact fun h3 h4 => ⟨h1.trans h3, h2.trans h4⟩
+  · intro s y z _ _; cases y <;> simp [veq]; intro h; subst h; exact id
+  · intro v y z _ _; cases y <;> simp [veq, verEq_iff]; intro h; subst h; exact id
+  · intro o rs y z _ _; cases y <;> simp [veq, rangesEq_iff]; intro h; subst h; exact id
+  · intro a n m y z _ _; cases y <;> simp [veq]
+    intro h1; cases z <;> simp [veq]
+    exact fun h2 => h1.trans h2
+  · intro n as ih y z cx cy
+    cases y <;> try simp [veq]
+    rename_i n' as'
+    cases z <;> try simp [veq]
+    rename_i n'' as''
+    simp only [ecmp] at cx cy
+    intro e1 l1 h1 e2 l2 h2
+    exact ⟨e1.trans e2, l1.trans l2, veqL_trans_of ih cx cy h1 h2⟩
+  · intro n t hv v c ih y z cx cy
+    cases y <;> try simp [veq]
+    rename_i n' t' hv' v' c'
+    cases z <;> try simp [veq]
+    rename_i n'' t'' hv'' v'' c''
+    simp only [ecmp, Bool.and_eq_true] at cx cy
+    intro e1 e2 e3 h1 h2 f1 f2 f3 g1 g2
+    exact ⟨⟨⟨⟨e1.trans f1, e2.trans f2⟩, e3.trans f3⟩, tyEq_trans _ _ _ h1 g1⟩, ih v' v'' cx.2 cy.2 h2 g2⟩
+
+/-! ## `Comparable` is `EqComparable` plus "has a hash key" -/
+
+theorem keyable_of_cmp : ∀ x : Val, cmp x = true → keyable x = true := by
+  have hl : ∀ vs : List Val, (∀ v ∈ vs, cmp v = true → keyable v = true) → cmpL vs = true → keyableL vs = true := by
+    intro vs
+    induction vs with
+    | nil => intros; rfl
+    | cons v vs ihl =>
+      intro ih h
+      simp only [cmpL, Bool.and_eq_true] at h
+      simp only [keyableL, Bool.and_eq_true]
+      exact ⟨ih v List.mem_cons_self h.1, ihl (fun w hw => ih w (List.mem_cons_of_mem _ hw)) h.2⟩
+  have he : ∀ es : List (Val × Val), (∀ e ∈ es, (cmp e.1 = true → keyable e.1 = true) ∧ (cmp e.2 = true → keyable e.2 = true)) →
+      cmpE es = true → keyableE es = true := by
+    intro es
+    induction es with
+    | nil => intros; rfl
+    | cons e es ihl =>
+      intro ih h
+      obtain ⟨k, v⟩ := e
+      simp only [cmpE, Bool.and_eq_true] at h
+      simp only [keyableE, Bool.and_eq_true]
+      exact ⟨⟨(ih (k, v) List.mem_cons_self).1 h.1.1, (ih (k, v) List.mem_cons_self).2 h.1.2⟩,
+        ihl (fun w hw => ih w (List.mem_cons_of_mem _ hw)) h.2⟩
+  apply Val.ind <;> try (intros; rfl)
+  · intro vs ih h; simp only [cmp] at h; simp only [keyable]; exact hl vs ih h
+  · intro es ih h; simp only [keyable]; exact he es ih (cmp_hash h).1
+  · intro k v ihk ihv h
+    simp only [cmp, Bool.and_eq_true] at h
+    simp [keyable, ihk h.1, ihv h.2]
+  · intro v _ h; simp [cmp] at h
+  · intro a n m h; simp [cmp] at h
+  · intro n as _ h; simp [cmp] at h
+  · intro n t hv v c _ h; simp [cmp] at h
+
+theorem ecmp_of_cmp : ∀ x : Val, cmp x = true → ecmp x = true := by
+  have hl : ∀ vs : List Val, (∀ v ∈ vs, cmp v = true → ecmp v = true) → cmpL vs = true → ecmpL vs = true := by
+    intro vs
+    induction vs with
+    | nil => intros; rfl
+    | cons v vs ihl =>
+      intro ih h
+      simp only [cmpL, Bool.and_eq_true] at h
+      simp only [ecmpL, Bool.and_eq_true]
+      exact ⟨ih v List.mem_cons_self h.1, ihl (fun w hw => ih w (List.mem_cons_of_mem _ hw)) h.2⟩
+  have he : ∀ es : List (Val × Val), (∀ e ∈ es, (cmp e.1 = true → ecmp e.1 = true) ∧ (cmp e.2 = true → ecmp e.2 = true)) →
+      cmpE es = true → ecmpE es = true := by
+    intro es
+    induction es with
+    | nil => intros; rfl
+    | cons e es ihl =>
+      intro ih h
+      obtain ⟨k, v⟩ := e
+      simp only [cmpE, Bool.and_eq_true] at h
+      simp only [ecmpE, Bool.and_eq_true]
+      exact ⟨⟨⟨keyable_of_cmp k h.1.1, (ih (k, v) List.mem_cons_self).1 h.1.1⟩, (ih (k, v) List.mem_cons_self).2 h.1.2⟩,
+        ihl (fun w hw => ih w (List.mem_cons_of_mem _ hw)) h.2⟩
+  apply Val.ind
+  · intro _; rfl
+  · intro _; rfl
+  · intro _ _; rfl
+  · intro i h; exact h
+  · intro b h; exact h
+  · intro _ _; rfl
+  · intro _ _; rfl
+  · intro _ _; rfl
+  · intro vs ih h; simp only [cmp] at h; simp only [ecmp]; exact hl vs ih h
+  · intro es ih h
+    simp only [cmp, Bool.and_eq_true] at h
+    simp only [ecmp, Bool.and_eq_true]
+    exact ⟨he es ih h.1, h.2⟩
+  · intro k v ihk ihv h
+    simp only [cmp, Bool.and_eq_true] at h
+    simp [ecmp, ihk h.1, ihv h.2]
+  · intro v _ h; simp [cmp] at h
+  · intro t h; exact h
+  · intro n h; exact h
+  · intro a b h; exact h
+  · intro _ _; rfl
+  · intro _ _; rfl
+  · intro _ _ _; rfl
+  · intro a n m h; simp [cmp] at h
+  · intro n as _ h; simp [cmp] at h
+  · intro n t hv v c _ h; simp [cmp] at h
+
+theorem veq_refl (x : Val) (h : cmp x = true) : veq x x = true := veq_refl_e x (ecmp_of_cmp x h)
+
+theorem veq_symm (x y : Val) (hx : cmp x = true) (hy : cmp y = true) : veq x y = veq y x :=
+  veq_symm_e x y (ecmp_of_cmp x hx) (ecmp_of_cmp y hy)
+
+theorem veq_trans (x y z : Val) (hx : cmp x = true) (hy : cmp y = true) (h1 : veq x y = true) (h2 : veq y z = true) :
+    veq x z = true := veq_trans_e x y z (ecmp_of_cmp x hx) (ecmp_of_cmp y hy) h1 h2
 
 end Pcore.ValueEq
